@@ -134,6 +134,15 @@ def arg_sets(ctx):
             if a["crop_corner"] and rng.random() < 0.4:
                 a["crop_corner"] = rng.choice([np.bool_(True), 1])      # a truthy flag that is not the builtin True
             A.append(a)
+    # curated requests, one per clause (independent of the random draws above, so that the set keeps covering them):
+    # non-square calibration regions in both orientations with corner cropping, odd calibration sizes, rectangular images,
+    # a truthy non-bool flag, every dtype
+    A.append({"img_shape": (64, 64), "accel": 4.0, "calib": (4, 24), "tol": 0.5, "seed": 3, "crop_corner": True})
+    A.append({"img_shape": (64, 64), "accel": 4.0, "calib": (24, 4), "tol": 0.5, "seed": 3, "crop_corner": True})
+    A.append({"img_shape": (32, 48), "accel": 3.0, "calib": (5, 7), "tol": 0.5, "seed": 1, "crop_corner": True})
+    A.append({"img_shape": (48, 32), "accel": 3.0, "calib": (7, 3), "tol": 0.5, "seed": 1, "crop_corner": np.bool_(True), "dtype": np.float32})
+    A.append({"img_shape": (40, 40), "accel": 6.0, "calib": (9, 9), "tol": 0.5, "seed": 0, "crop_corner": False, "dtype": np.complex64})
+    A.append({"img_shape": (32, 32), "accel": 11.5, "calib": (12, 12), "tol": 0.1, "seed": 5, "crop_corner": True})          # cannot be met: must raise, RNG untouched
     # the two argument tuples that used to hang, and boundary requests
     A.append({"img_shape": (16, 16), "accel": 11.5})
     A.append({"img_shape": (32, 32), "accel": 4, "tol": 0.001})
